@@ -168,6 +168,11 @@ def run(ctx):
                     "voxel_offset": [0, 0, 0]}
             if enc_in == "compressed_segmentation" and rng.random() < 0.5:
                 full["compressed_segmentation_block_size"] = [8, 8, 8]
+            if rng.random() < 0.35:
+                # a full-resolution info that names no encoding: the documented default applies, whatever EARLIER calls in
+                # this process were asked for
+                del full["encoding"]
+                enc_in = None
             info0 = {"type": rng.choice(["image", "segmentation"]), "data_type": dt,
                      "num_channels": rng.choice([1, 1, 3]), "scales": [full]}
             src = os.path.join(tmp, "info_fullres.json")
@@ -185,7 +190,7 @@ def run(ctx):
             except SystemExit as exc:
                 rc = exc.code
             except Exception as exc:  # noqa
-                final_enc = enc_arg or enc_in
+                final_enc = enc_arg or enc_in or "raw"
                 # requests the encodings cannot serve at all are refused (with a warning) — legitimate
                 legit = (final_enc == "jpeg" and (dt != "uint8" or info0["num_channels"] not in (1, 3))) or \
                     (final_enc == "compressed_segmentation" and dt == "float32")
@@ -208,6 +213,9 @@ def run(ctx):
                                 dict(desc, info=out))
                 continue
             final_enc = out["scales"][0]["encoding"]
+            if final_enc != (enc_arg or enc_in or "raw"):
+                ctx.oracle_fail("the generated info does not carry the requested encoding (--encoding, else the input "
+                                "info's, else raw)", dict(desc, got=final_enc, expected=enc_arg or enc_in or "raw"))
             if final_enc == "compressed_segmentation" and out["data_type"] not in ("uint32", "uint64"):
                 ctx.oracle_fail("compressed_segmentation info with a data type the encoding cannot hold", desc)
             if any(s["encoding"] != final_enc for s in out["scales"]):
